@@ -7,8 +7,8 @@ one of: kept open, orderly close, half close, abort (close with unread data) - a
 at every offset).  Afterwards a canary request on a fresh connection must be served, then every peer closes and the tables are inspected.
 
 Oracle (deliberately narrow: parser leniency is never a violation).  Every mutation operator is labelled by construction
-`must-reject` (non-numeric or conflicting Content-Length, request line with fewer than three parts, non-hex chunk size, NUL in a header
-name, unsupported major version - each also rejected by the strict reference parser, asserted per run) or `either`, and `single`
+`must-reject` (non-numeric, negative or conflicting Content-Length, request line with fewer than three parts, non-hex chunk size, NUL in a
+header name, unsupported major version - each also rejected by the strict reference parser, asserted per run) or `either`, and `single`
 (the bytes cannot be read as more than one message by any reasonable server) or not:
   R1  the bytes the server wrote on a connection (ground truth of the interposer) are a sequence of syntactically valid responses per the
       strict reference parser, complete unless the peer went away first; http.client.HTTPResponse must agree on status and body;
@@ -26,6 +26,17 @@ cause; two answers to bytes that arrived in ONE read would be another), the tabl
 Avoidance (ctx.avoid): a key that ends in an operator name removes that operator from the generator; a residue key of the HTTP component
 removes that path from the walk (other paths are still found), one of the socket server / poller switches the walk over those two off;
 a response-after-close key makes the judge look only at what was written up to the announcing answer.
+
+Reflected request headers (operator hdr-reflected-ctl).  Two request headers come back in answers: every response built from a request
+echoes the request's cookies as Set-Cookie (the handler's 200, the 400 for a missing Host, the 505, the 301), and the redirect that
+answers a target such as `//` puts the Host into Location.  The server's parser decodes each header line with `unicode_escape` after
+it has split the lines, so the request can carry a CR / LF / NUL / other control character into such a value either as an escape
+(`\\x0d\\x0a`, `\\r\\n`, `\\n`, `\\x00`, `\\u000d\\u000a`, `\\015\\012` - perfectly well-formed header bytes) or raw where a raw one survives the
+line splitting (NUL, bare CR, bare LF).  The operator draws the character(s), the place (quoted cookie value, cookie value followed
+by a header look-alike, cookie name, Host) and which answer reflects it (handler, redirect, 400 without Host, 505).  Nothing new is
+demanded: R1 already says that what is written is a syntactically valid response - a header line without a colon, a header section
+that ends at an injected empty line (Content-Length then no longer describes the body) and a control character inside a field value
+are not; a space (what is left of Host `a b`, or of a neutralised control character) is fine, and so is a well-formed extra header line.
 """
 from simcore import world, simnet
 from simcore.world import W
@@ -67,10 +78,16 @@ ASSUMPTIONS = ['"retained state" is read as: the socket object is reachable from
                'operators that disturb message framing are not required to produce at most one response (a lenient server may see two messages)',
                'well-formed chunked bodies are not used as mutation bases (how they survive segmentation is C13\'s subject); HEAD is not used',
                'a status line such as "HTTP/9.9 505 ..." is syntactically valid (HTTP-version = HTTP/DIGIT.DIGIT); http.client abstains there',
-               'the handler used by the probe never fails, so every 4xx/5xx stems from the HTTP layer']
+               'the handler used by the probe never fails, so every 4xx/5xx stems from the HTTP layer',
+               'a reflected request header (Cookie -> Set-Cookie, Host -> Location) may come back changed, dropped or as a well-formed extra header line; '
+               'only the syntax of what is written is judged (field values without control characters other than HTAB, every header line has a colon, '
+               'Content-Length describes what follows the first empty line). whether the server answers such a request at all, or closes, is its choice',
+               'a negative Content-Length (operator cl-negative) announces no body, so none is sent behind it']
 PROBES = ['fault:short_read', 'fault:piecewise_arrival', 'fault:truncation', 'fault:peer_close', 'fault:peer_abort', 'fault:peer_half_close', 'multi-conn',
           'prefix-request', 'outcome:wait', 'outcome:2xx', 'outcome:4xx', 'outcome:5xx', 'outcome:closed-silently', 'canary-ok', 'disconnect-mid-message',
-          'must-reject-op', 'request-event', 'label-checked', 'same-connection-follow-up']
+          'must-reject-op', 'request-event', 'label-checked', 'same-connection-follow-up',
+          'reflected-ctl:cookie-value', 'reflected-ctl:cookie-name', 'reflected-ctl:host', 'reflected-ctl:escaped', 'reflected-ctl:raw',
+          'reflected-header-written', 'cl-negative']
 TIERS = {
     'quick': dict(runs=90000, wall=33, chunk=100, cfg=dict(max_conns=3, big=1)),
     'thorough': dict(runs=1500000, wall=600, chunk=400, cfg=dict(max_conns=3, big=4)),
@@ -277,6 +294,47 @@ def op_cl_odd(ch, fl, lines, body):
     return fl, lines, body
 
 
+def op_cl_negative(ch, fl, lines, body):
+    """"non-numeric / negative / conflicting Content-Length": a length below zero; it announces no body, so none follows"""
+    n = len(body)
+    return fl, _set_header(lines, b'Content-Length', ch.choice([b'-%d' % max(n, 1), b'-1', b'-5', b'-' + b'9' * 25], 'cl-negative')), b''
+
+
+# what ends up inside a reflected header value: as an escape the server's own unicode_escape decoding of header lines turns into the
+# character (well-formed header bytes), or raw where a raw one survives the splitting into lines (NUL, bare CR, bare LF)
+REFLECTED_CTL = [b'\\x0d\\x0a', b'\\r\\n', b'\\n', b'\\x00', b'\\u000d\\u000a', b'\\x0d\\x0a\\x0d\\x0a', b'\\r\\n\\r\\n', b'\\r', b'\\015\\012', b'\\N{NULL}',
+                 b'\\x01', b'\\x7f', b'\\x1b[2J', b'\x00', b'\r', b'\n']
+
+
+def op_hdr_reflected_ctl(ch, fl, lines, body, tags=None):
+    """CR / LF / NUL / another control character inside one of the two request headers that answers reflect: Cookie (echoed as Set-Cookie
+    by every response built from the request) and Host (Location of a redirect); see the module docstring."""
+    tags = [] if tags is None else tags
+    brk = ch.choice(REFLECTED_CTL, 'ctl')
+    tags.append('reflected-ctl:escaped' if brk[:1] == b'\\' else 'reflected-ctl:raw')
+    where = ch.draw(4, 'reflected-in')
+    answer = ch.draw(4, 'answered-by')          # 0 the handler, 1 a redirect (target //), 2 the 400 for a missing Host, 3 the 505
+    if where == 3:
+        tags.append('reflected-ctl:host')
+        lines = [l for l in lines if not l.lower().startswith(b'host:')] + [b'Host: a' + brk + b'b']
+        if answer == 2:
+            answer = 1                          # the Host is what is reflected here; the redirect is the answer that carries it
+    else:
+        tags.append('reflected-ctl:cookie-name' if where == 2 else 'reflected-ctl:cookie-value')
+        lines = [l for l in lines if not l.lower().startswith(b'cookie:')]
+        cookie = [b'Cookie: a="' + brk + b'junk line"', b'Cookie: k=1; a="v' + brk + b'X-Injected: 1"', b'Cookie: a' + brk + b'b=1; c=d'][where]
+        lines.insert(ch.draw(len(lines) + 1, 'pos'), cookie)
+    if answer == 1:
+        fl = _target(fl, b'//')
+    elif answer == 2:
+        lines = [l for l in lines if not l.lower().startswith(b'host:')]
+        if fl.endswith(b'1.0'):
+            fl = fl[:-1] + b'1'
+    elif answer == 3:
+        fl = _version(fl, b'HTTP/2.0')
+    return fl, lines, body
+
+
 def _chunked_body(sizeline, data=b'hello', tail=b'0\r\n\r\n', term=b'\r\n'):
     return sizeline + b'\r\n' + data + term + tail
 
@@ -351,12 +409,15 @@ OPS = [
     ('chunk-odd', 3, False, False, 'chunked', op_chunk_odd),
     ('tls-hello', 3, False, False, None, op_tls_hello),
     ('binary', 3, False, False, None, op_binary),
+    # (appended, so that the operator indices recorded in older replay tapes keep their meaning)
+    ('hdr-reflected-ctl', 5, False, True, None, op_hdr_reflected_ctl),
+    ('cl-negative', 3, True, True, 'clen', op_cl_negative),
 ]
 OPNAMES = [o[0] for o in OPS]
 
 
-def mutated(ch, cfg, avoid_ops=frozenset()):
-    """(op name, must_reject, single, bytes)"""
+def mutated(ch, cfg, avoid_ops=frozenset(), tags=None):
+    """(op name, must_reject, single, bytes); `tags`: list that receives the reach-probe names of the shape an operator drew"""
     weights = [0 if o[0] in avoid_ops else o[1] for o in OPS]
     name, _, must, single, framing, fn = OPS[ch.weighted(weights, 'op')]
     if framing is None:
@@ -369,6 +430,8 @@ def mutated(ch, cfg, avoid_ops=frozenset()):
     lines = text.split(b'\r\n')[:-1] if text else []
     if fn in (op_reqline_long, op_hdr_oversized, op_hdr_many):
         r = fn(ch, raw[:i], lines, raw[j:], cfg.get('big', 1))
+    elif fn is op_hdr_reflected_ctl:
+        r = fn(ch, raw[:i], lines, raw[j:], tags)
     else:
         r = fn(ch, raw[:i], lines, raw[j:])
     if isinstance(r, tuple):
@@ -637,7 +700,10 @@ def _run(ctx):
             pre = G.gen_request(ch, keepalive=True, allow_head=False, variants=False, max_extra=1, framing=['none', 'clen'][ch.draw(2, 'prefix-framing')])
             c.steps.append(('prefix', pre.raw))
             c.nprefix = 1
-        c.op, c.must, c.single, c.raw = mutated(ch, cfg, avoid_ops)
+        tags = []
+        c.op, c.must, c.single, c.raw = mutated(ch, cfg, avoid_ops, tags)
+        for t in tags + (['cl-negative'] if c.op == 'cl-negative' else []):
+            ctx.stat(t)
         check_label(c.op, c.must, c.raw)
         ctx.stat('label-checked')
         if c.must:
@@ -810,6 +876,13 @@ def _judge(ctx, c, fail):
     if err:
         fail('C14/response-syntax/%s' % tag, 'connection %d: the bytes written are not a sequence of well-formed responses (%s): %s' % (c.idx, err, _short(sent, 300)))
         return
+    for r in rs:
+        # belt and braces for R1 (the strict parser's field pattern ends in `$`, which tolerates one final LF): no control character but
+        # HTAB inside a field value that was written
+        ctl = [(k, v) for k, v in r.headers if any((ord(x) < 32 and x != '\t') or ord(x) == 127 for x in v)]
+        if ctl:
+            fail('C14/response-syntax/%s' % tag, 'connection %d: control character inside a header field of the response: %r' % (c.idx, ctl[0]))
+            return
     if rest and not peer_gone:
         fail('C14/response-incomplete/%s' % tag, 'connection %d: at quiescence the last response is incomplete although the peer is still there: %s' % (c.idx, _short(rest, 200)))
         return
@@ -830,6 +903,8 @@ def _judge(ctx, c, fail):
     else:
         out = '%dxx' % (statuses[0] // 100)
     ctx.stat('outcome:' + out)
+    if c.op == 'hdr-reflected-ctl' and any(r.get('Set-Cookie') is not None or r.get('Location') is not None for r in mine):
+        ctx.stat('reflected-header-written')     # the answer did carry the reflected header (and was found well-formed above)
     ctx.state((c.op, out, c.end, 'truncated' if c.truncated else 'complete', server_closed))
     ctx.log('judge', c.idx, c.op, tuple(statuses), nreq, server_closed)
     ctx.trace('  conn %d: server wrote %s, dispatched %d request event(s) for the mutated message, %s' % (
